@@ -27,7 +27,7 @@ META = {
                    'ordinary exception and interrupt-style termination at every interception step (also inside intercepted '
                    'bodies), crossed with four sampling outcomes (scripted RNG) and storage failing on save; a spy cassette '
                    'counts finalisations and everything found in the cassette afterwards is replayed against a tripwire '
-                   'environment.  Enumeration of fault placements over sampled programs, not a proof.'),
+                   'environment.  Enumeration of fault placements over sampled programs, not a proof. Also: recording switched off mid-operation (as a step and from inside an intercepted body, alone and together with a failing data handler), and input bodies that modify their arguments.'),
     'level_note': 'Trusted: spy cassette journal, fault injection in the generated service, the small finalisation model in this file. Single-threaded; one operation at a time.',
     'rule': ('evaluation = one (program, fault placement, sampling outcome) executed with recording enabled, followed by a replay '
              'of every complete recording left in the cassette; non-trivial = a fault / termination fired or sampling was not '
